@@ -624,7 +624,7 @@ fn c03_switch_check(_ctx: &Ctx, c: &SeqCase) -> Report {
 
 /// ready_set_go: the action emits into a hot source that the inner pipeline listens to;
 /// nothing the action emits may be missed
-fn c03_rsg_strategy(ctx: &Ctx) -> BoxedStrategy<SeqCase> {
+pub(crate) fn c03_rsg_strategy(ctx: &Ctx) -> BoxedStrategy<SeqCase> {
   let cfg = GenCfg { nhot: 1, cold: false, creation: false, max_script: 4, exclude: known_excludes(ctx), ..GenCfg::default() };
   (gen::chain(&cfg, 0, 2), gen::script_wf(4, 1), gen::script_wf(3, 1), 0u64..4)
     .prop_map(|(inner, script, later, hash_seed)| {
